@@ -4,7 +4,8 @@
    Generated/Gen_Html.v (T2 translation of filter_tag_id, filter_url_from_type, filter_make_unique,
    filter_namespace_doc, markupsafe escape, select_autoescape configuration, template names, explicit escape
    filters at documentation sinks -- regenerated from /repo on every run). *)
-From Verif Require Import HtmlModel HtmlThm HtmlThmTree HtmlThmLinks HtmlSkel HtmlThmSkel.
+From Coq Require Import String.
+From Verif Require Import HtmlModel HtmlThm HtmlThmTree HtmlThmLinks HtmlThmLinksAll HtmlThmOk HtmlSkel HtmlThmSkel.
 Open Scope N_scope.
 
 (* (1) escape_no_markup: for EVERY string, the result of either escape function in use (html.escape inside make_unique,
@@ -27,33 +28,9 @@ Theorem C20_doc_text_is_text_iff : forall b, doc_text_is_text b <-> b = true.
 Proof. exact doc_text_is_text_iff. Qed.
 Print Assumptions C20_doc_text_is_text_iff.
 
-(* html_autoescape_refuted: the full statement is false of a sink that does not escape; witness <script>alert(1)</script>
-   (known finding F-HTML-ESCAPE).  Whether the working tree's sinks escape is `cfg_docs_escaped faithful_cfg`, computed from
-   the regenerated template names, autoescape extensions and sink filters; the check reads it from the extracted model and
-   records it in the evidence. *)
-Theorem C20_html_autoescape_refuted : ~ doc_text_is_text false.
-Proof. exact doc_sink_raw_refuted. Qed.
-Print Assumptions C20_html_autoescape_refuted.
 
-Theorem C20_html_autoescape_decision :
-  forall b, b = de_ti faithful_cfg ->
-    (b = false -> ~ doc_text_is_text (de_ti faithful_cfg)) /\ (b = true -> doc_text_is_text (de_ti faithful_cfg)).
-Proof.
-  intros b ->. split; intros E; rewrite E; [exact doc_sink_raw_refuted | exact doc_sink_escaped_is_text].
-Qed.
-Print Assumptions C20_html_autoescape_decision.
 
-(* the autoescape decision is a function of the template name alone: *.html / *.htm / *.xml / *.json names escape,
-   and every name under which the HTML templates are loaded now gets the same decision as `type_info.j2` *)
-Theorem C20_autoescape_uniform_over_templates :
-  forallb (fun n => Bool.eqb (autoescape_selected n) (autoescape_selected n_type_info)) html_template_names = true.
-Proof. vm_compute. reflexivity. Qed.
-Print Assumptions C20_autoescape_uniform_over_templates.
 
-(* (3') the part of (3) that holds without escaping: texts free of the five special characters *)
-Theorem C20_doc_text_is_text_partial : forall d, no_special d = true -> doc_text_is_text_for false d.
-Proof. exact doc_sink_raw_partial. Qed.
-Print Assumptions C20_doc_text_is_text_partial.
 
 (* (3'') positions that pass through an explicit escape filter: ids of nested elements come out of make_unique
    (translated) free of <, >, quotes for EVERY input and EVERY generator state *)
@@ -87,6 +64,30 @@ Theorem C20_emit_tree_wf :
 Proof. exact emit_tree_wf. Qed.
 Print Assumptions C20_emit_tree_wf.
 
+(* (4') emit_tree_wf WITHOUT a per-page check: when the documentation sinks escape and every other DSDL-derived string is free
+   of < > and quotes (identifiers, type expressions, printed numbers: DSDL grammar), every namespace page is within the
+   hypotheses of scan_render, hence well-formed as a character stream -- for arbitrary documentation text *)
+Theorem C20_ns_page_pieces_ok :
+  forall cf n, de_ti cf = true -> de_ni cf = true -> de_sb cf = true -> nst_ok n = true -> pieces_ok (ns_page cf n) = true.
+Proof. intros cf n A B C. exact (ns_page_pieces_ok cf A B C n). Qed.
+Print Assumptions C20_ns_page_pieces_ok.
+
+Theorem C20_ns_page_wf_unconditional :
+  forall cf n, cfg_docs_escaped cf = true -> nst_ok n = true -> wf_tokens (scan None (render (ns_page cf n))) = true.
+Proof. exact ns_page_wf_unconditional. Qed.
+Print Assumptions C20_ns_page_wf_unconditional.
+
+Theorem C20_ns_page_wf_now : forall n, nst_ok n = true -> wf_tokens (scan None (render (ns_page faithful_cfg n))) = true.
+Proof. intros n. apply ns_page_wf_unconditional. vm_compute. reflexivity. Qed.
+Print Assumptions C20_ns_page_wf_now.
+
+(* filter_display_type (translated from the source) renders exactly the pieces the emitter uses, for every type / attribute *)
+Theorem C20_display_type_render :
+  (forall d, filter_display_type (node_of_dtype d) = render (disp_type d))
+  /\ (forall di, filter_display_type (node_of_dinst di) = render (disp_inst di)).
+Proof. split; [exact display_type_render | exact display_inst_render]. Qed.
+Print Assumptions C20_display_type_render.
+
 (* (5) links.  The anchor inside a type URL is the id filter_tag_id gives (both translated from the source). *)
 Theorem C20_url_targets_tag_id :
   forall t, ti_is_array t = false -> ti_has_parent t = false ->
@@ -99,32 +100,43 @@ Theorem C20_listed_ids_on_page :
 Proof. exact listed_ids_on_page. Qed.
 Print Assumptions C20_listed_ids_on_page.
 
-(* links_resolve, the part that holds: on a root namespace's index page the link for a reference to composite type c resolves
-   to a generated page and an id on it, for every site that generates c's root namespace and lists a type with c's id there *)
-Theorem C20_links_resolve_partial :
-  forall cf roots r c r' c',
-    ae_ti cf = false -> seg_ok (ns_name r) = true -> ti_is_array (ci_t c) = false -> ti_has_parent (ci_t c) = false ->
-    In r' roots -> ns_name r' = ti_root_ns (ci_t c) -> seg_ok (ns_name r') = true ->
-    In c' (all_listed r') -> filter_tag_id (ci_t c') = filter_tag_id (ci_t c) ->
-    link_ok cf roots r (filter_url_from_type (ci_t c)) = true.
-Proof. exact links_resolve_partial. Qed.
-Print Assumptions C20_links_resolve_partial.
 
-(* links_resolve on nested-namespace pages (F-HTML-LINK-SUBNS): false of the model without the depth prefix, true with it
-   (design_notes/C20_links_fix.patch); the working tree is in the state `lk_up faithful_cfg`, regenerated from the templates *)
-Theorem C20_links_resolve_subns_by_state :
-  page_links_ok (set_lk_up faithful_cfg false) [w_site_subns] w_sub = false
-  /\ page_links_ok (set_lk_up faithful_cfg true) [w_site_subns] w_sub = true
-  /\ page_links_ok faithful_cfg [w_site_subns] w_site_subns = true
-  /\ page_links_ok faithful_cfg [w_site_subns] w_sub = lk_up faithful_cfg.
-Proof. exact links_subns_by_state. Qed.
-Print Assumptions C20_links_resolve_subns_by_state.
 
-(* links_resolve for the request/response halves of services (F-HTML-LINK-SVC): holds exactly when the translated
-   filter_url_from_type sends them to the service's anchor *)
-Theorem C20_links_resolve_svc_by_state : page_links_ok faithful_cfg [w_site_svc] w_site_svc = url_links_service.
-Proof. exact links_svc_by_state. Qed.
-Print Assumptions C20_links_resolve_svc_by_state.
+
+(* links_resolve, UNIVERSAL: for every set of generated root namespaces, every page of the site (the index page of ANY
+   namespace, at any depth), every hyperlink the page carries -- sidebar links to namespaces and types, and the type link of
+   every nested composite incl. array elements and the request/response halves of services -- resolves: relative links,
+   resolved against the page's directory (one path component per name component; `..` pops, RFC 3986 5.2 = normpath(join)),
+   land on the index page of a generated root namespace, and the fragment is an id that page produces.  Hypothesis: what
+   pydsdl guarantees for every referenced composite (its root namespace is generated, is a single identifier, and lists the
+   type -- or, for a service half, the service).  Configuration side conditions hold of the regenerated configuration. *)
+Theorem C20_links_resolve_universal :
+  forall cf roots self,
+    ae_ti cf = false -> ae_ni cf = false -> ae_sb cf = false -> lk_up cf = true ->
+    In self (site_pages roots) ->
+    (forall c, In c (refs_ns self) -> ref_resolves roots c) ->
+    page_links_ok cf roots self = true.
+Proof. exact links_resolve_universal. Qed.
+Print Assumptions C20_links_resolve_universal.
+
+Theorem C20_links_resolve_now :
+  forall roots self, In self (site_pages roots) -> (forall c, In c (refs_ns self) -> ref_resolves roots c) ->
+    page_links_ok faithful_cfg roots self = true.
+Proof.
+  intros roots self. destruct faithful_cfg_links as (A & B & C & D). exact (links_resolve_universal faithful_cfg roots self A B C D).
+Qed.
+Print Assumptions C20_links_resolve_now.
+
+(* the URL algebra behind it: from the page of a namespace with ANY number of dots in its name *)
+Theorem C20_resolve_type_url_any_depth :
+  forall name R a, seg_ok R = true ->
+    resolve (split_dots name) (up_of name ++ s_up ++ R ++ s_slash_hash ++ a) = TDir [R] a.
+Proof. exact resolve_type_url_any_depth. Qed.
+Print Assumptions C20_resolve_type_url_any_depth.
+
+Theorem C20_url_shape : forall t, filter_url_from_type t = s_up ++ ti_root_ns t ++ s_slash_hash ++ url_anchor t.
+Proof. exact url_shape. Qed.
+Print Assumptions C20_url_shape.
 
 (* (6) the REAL templates.  Generated/Gen_HtmlSkel.v holds, for every template and macro of lang/html/templates, the skeleton of
    literal tags with the Jinja control structure, and the table of `{{ }}` output sites (regenerated on every run).
@@ -150,12 +162,30 @@ Theorem C20_html_page_wf :
 Proof. exact html_page_wf. Qed.
 Print Assumptions C20_html_page_wf.
 
-(* all_dsdl_text_sinks_escaped: every output site of every template inserts a template constant, a number, a DSDL identifier,
-   a value that went through an escaping filter applied to the WHOLE expression, or (text positions only) display_type markup;
-   or its template is autoescaped.  (F-HTML-ESCAPE was: the five documentation sinks had class 8.) *)
-Theorem C20_all_dsdl_text_sinks_escaped : all_dsdl_text_sinks_escaped = true.
-Proof. exact html_sinks_escaped. Qed.
-Print Assumptions C20_all_dsdl_text_sinks_escaped.
+
+(* output sites, classified IN COQ: the translator emits for every `{{ }}` site the expression AST, for every template
+   variable all its bindings ({% set %}, parameter defaults, arguments at every call site) and a class certificate; Coq
+   recomputes every class from the whitelists in Gen/HtmlSkel.v, checks the certificate as an inductive invariant, and ... *)
+Theorem C20_html_sinks_classified_safe : sinks_classified_safe = true.
+Proof. exact html_sinks_classified_safe. Qed.
+Print Assumptions C20_html_sinks_classified_safe.
+
+(* ... the classification is sound for the evaluation relation `evals` (documentation attributes, unknown attributes, unknown
+   filters and unbound names evaluate to ARBITRARY strings; identifier / number leaves to quote_free strings) ... *)
+Theorem C20_cls_expr_sound :
+  forall vc bs, bindings_consistent vc bs = true -> certificate_bound vc bs = true ->
+    forall sc e v, evals bs sc e v -> val_ok (cls_expr vc sc e) v.
+Proof. exact cls_expr_sound. Qed.
+Print Assumptions C20_cls_expr_sound.
+
+(* ... so whatever a site of the real templates can print is free of < > and quotes, or (text positions only) balanced,
+   scan-stable markup produced by display_type *)
+Theorem C20_html_site_values_ok :
+  forall s v, In s html_sites -> autoescape_selected (st_template s) = false ->
+    evals html_bindings (st_scope s) (st_expr s) v ->
+    (st_ctx s =? 0) = true /\ markup_ok v \/ quote_free v = true.
+Proof. exact html_site_values_ok. Qed.
+Print Assumptions C20_html_site_values_ok.
 
 (* the inlining / recursion structure of the real macros (every call and include with the loops and conditions guarding it,
    regenerated) is exactly the one the emitter model mirrors: every nested namespace is inlined unconditionally, every type
@@ -175,5 +205,18 @@ Example C20_entry_templates_in_table :
   /\ (length html_entry_templates > 0)%nat.
 Proof. split; vm_compute; [reflexivity | lia]. Qed.
 Example C20_partial_premises_satisfiable :
-  seg_ok (ns_name w_site_subns) = true /\ no_special [97; 32; 98; 46] = true /\ ae_ti conformant_cfg = false.
+  seg_ok (ns_name w_site_subns) = true /\ forallb nst_ok w_site_ok = true /\ nst_ok w_site_subns = true.
 Proof. vm_compute. repeat split. Qed.
+(* the closure hypothesis of C20_links_resolve_universal holds of a site with a nested namespace whose page references a
+   type of the root namespace, and the theorem's conclusion is what the model computes for it *)
+Example C20_closure_satisfiable :
+  (forall self, In self (site_pages [w_site_subns]) -> forall c, In c (refs_ns self) -> ref_resolves [w_site_subns] c)
+  /\ forallb (page_links_ok faithful_cfg [w_site_subns]) (site_pages [w_site_subns]) = true.
+Proof.
+  split; [|vm_compute; reflexivity].
+  intros self Hs c Hc.
+  assert (Hc' : c = mk_cinfo "rega.Inner" "rega" false).
+  { cbn in Hs. destruct Hs as [<-|[<-|[]]]; cbn in Hc; repeat (destruct Hc as [<-|Hc]; [reflexivity|]); destruct Hc. }
+  subst c. exists w_site_subns. split; [left; reflexivity|]. split; [reflexivity|]. split; [reflexivity|].
+  exists (mk_cinfo "rega.Inner" "rega" false). split; [left; reflexivity|reflexivity].
+Qed.
